@@ -1,0 +1,15 @@
+//go:build verif
+
+// Package verifhook provides instrumentation points used only by the external
+// verification harness. With the "verif" build tag off every call compiles to nothing.
+package verifhook
+
+// Fn is installed by the verification harness; nil means no tracing.
+var Fn func(ev string, kv ...any)
+
+// At reports that the running goroutine reached the named point.
+func At(ev string, kv ...any) {
+	if f := Fn; f != nil {
+		f(ev, kv...)
+	}
+}
